@@ -234,3 +234,102 @@ Section SampleThms.
     output (sample bsize 0 h st) = first_draw bsize st /\ requests (sample bsize 0 h st) = [].
   Proof. unfold Dedup.sample, first_draw, Dedup.output, Dedup.requests. destruct (gen st bsize); cbn. auto. Qed.
 End SampleThms.
+
+(* ---- round 4: the first batch is a view of the caller's history (Model/Dedup.v, Section SampleView) ---- *)
+Lemma count_app g l1 l2 : count g (l1 ++ l2) = count g l1 + count g l2.
+Proof. unfold count. now rewrite filter_app, app_length. Qed.
+
+Lemma in_firstn_l {A} n (l : list A) x : In x (firstn n l) -> In x l.
+Proof. intros H. rewrite <- (firstn_skipn n l). apply in_or_app. now left. Qed.
+Lemma in_skipn_l {A} n (l : list A) x : In x (skipn n l) -> In x l.
+Proof. intros H. rewrite <- (firstn_skipn n l). apply in_or_app. now right. Qed.
+
+Lemma window_in a n h g : In g (window a n h) -> In g h.
+Proof. unfold window. intros H. apply in_firstn_l in H. now apply in_skipn_l in H. Qed.
+
+Lemma window_length a n h : a + n <= length h -> length (window a n h) = n.
+Proof. intros H. unfold window. rewrite firstn_length, skipn_length. lia. Qed.
+
+(* every row of a batch that is a window of the history is a repeat: it occurs in the history and in the batch *)
+Lemma view_all_repeats a h s i : window a (length s) h = s -> i < length s -> is_repeat h s i.
+Proof. intros Hw Hi. destruct (nth_error s i) as [g|] eqn:E; [|apply nth_error_None in E; lia].
+  exists g. split; [exact E|]. rewrite count_app.
+  assert (H1 : In g s) by (eapply nth_error_In; eauto).
+  assert (H2 : In g h) by (apply (window_in a (length s)); now rewrite Hw).
+  apply count_pos_in in H1, H2. lia. Qed.
+
+Lemma write_through_length a h s : a + length s <= length h -> length (write_through a h s) = length h.
+Proof. intros H. unfold write_through. rewrite !app_length, firstn_length, skipn_length. lia. Qed.
+
+Lemma write_through_window a h s : a <= length h -> window a (length s) (write_through a h s) = s.
+Proof. intros H. unfold window, write_through.
+  rewrite skipn_app, firstn_length, Nat.min_l by lia.
+  rewrite (skipn_all2 (firstn a h)) by (rewrite firstn_length; lia).
+  rewrite Nat.sub_diag. cbn [skipn app].
+  rewrite firstn_app, Nat.sub_diag, firstn_all, firstn_O. apply app_nil_r. Qed.
+
+Lemma nodup_full_length (l : list nat) n : NoDup l -> (forall i, In i l <-> i < n) -> length l = n.
+Proof. intros Hnd H. rewrite <- (seq_length n 0). apply Permutation_length.
+  apply NoDup_Permutation; [exact Hnd | apply seq_NoDup |]. intros i. rewrite H, in_seq. lia. Qed.
+
+Lemma view_flags_all a h s : window a (length s) h = s -> length (dup_positions h s) = length s.
+Proof. intros Hw. apply nodup_full_length; [apply dup_positions_nodup|]. intros i. split.
+  - apply dup_positions_lt.
+  - intros Hi. apply dup_positions_spec. now apply (view_all_repeats a). Qed.
+
+Section View.
+  Variable St : Type.
+  Variable gen : St -> nat -> list point * St.
+
+  (* whatever the generator answers, every pass finds the WHOLE batch repeated (each redraw has just been written into the
+     history), the budget is used up, and the caller's history ends up holding the returned batch *)
+  Theorem passes_view_exhausts : forall budget a h s st,
+    s <> [] -> a + length s <= length h -> window a (length s) h = s ->
+    view_requests St (passes_view St gen budget a h s st) = repeat (length s) budget /\
+    window a (length s) (view_history St (passes_view St gen budget a h s st)) = view_output St (passes_view St gen budget a h s st) /\
+    length (view_output St (passes_view St gen budget a h s st)) = length s /\
+    length (view_history St (passes_view St gen budget a h s st)) = length h.
+  Proof. induction budget as [|b IH]; intros a h s st Hne Hlen Hw; cbn [passes_view].
+    - unfold view_requests, view_history, view_output. cbn. auto.
+    - pose proof (view_flags_all a h s Hw) as Hfull.
+      destruct (dup_positions h s) as [|i0 d0] eqn:E.
+      + cbn in Hfull. destruct s; [congruence|discriminate].
+      + rewrite <- E in *. destruct (gen st (length (dup_positions h s))) as [news st'] eqn:G.
+        pose proof (substitute_length s (dup_positions h s) news) as Hl'.
+        specialize (IH a (write_through a h (substitute s (dup_positions h s) news)) (substitute s (dup_positions h s) news) st').
+        destruct (passes_view St gen b a (write_through a h (substitute s (dup_positions h s) news))
+                    (substitute s (dup_positions h s) news) st') as [[[out h'] st''] fl] eqn:P.
+        unfold view_requests, view_history, view_output in *. cbn [fst snd map] in *.
+        destruct IH as (I1 & I2 & I3 & I4).
+        * intros C. rewrite C in Hl'. destruct s; cbn in Hl'; [congruence|discriminate].
+        * rewrite write_through_length; lia.
+        * apply write_through_window. lia.
+        * rewrite Hl' in *. rewrite write_through_length in I4 by lia.
+          rewrite Hfull, I1. cbn [repeat]. auto. Qed.
+
+  Theorem sample_view_exhausts bsize budget a h st : 0 < bsize -> a + bsize <= length h ->
+    view_requests St (sample_view St gen bsize budget a h st) = repeat bsize budget /\
+    window a bsize (view_history St (sample_view St gen bsize budget a h st)) = view_output St (sample_view St gen bsize budget a h st) /\
+    length (view_history St (sample_view St gen bsize budget a h st)) = length h.
+  Proof. intros Hb Hlen. unfold sample_view. destruct (gen st bsize) as [x st1].
+    pose proof (window_length a bsize h Hlen) as Hwl.
+    destruct (passes_view_exhausts budget a h (window a bsize h) st1) as (I1 & I2 & _ & I4).
+    - intros C. rewrite C in Hwl. cbn in Hwl. lia.
+    - lia.
+    - now rewrite Hwl.
+    - rewrite Hwl in *. auto. Qed.
+End View.
+
+(* A concrete run: history [1;2;3], first batch = the view of its rows 0-1, every redraw fresh.  Judged against the
+   caller's history one pass would do (requests [2], clean result); the code under the view asks three times for two
+   points, throws the first two fresh pairs away and leaves the history overwritten. *)
+Lemma view_of_history_refuted :
+  exists (h : list point) (script : list (list point)),
+    requests _ (sample_script 2 3 h script) = [2] /\
+    dup_positions h (output _ (sample_script 2 3 h script)) = [] /\
+    view_requests _ (sample_view_script 2 3 0 h script) = [2; 2; 2] /\
+    view_history _ (sample_view_script 2 3 0 h script) <> h /\
+    output _ (sample_script 2 3 h script) <> view_output _ (sample_view_script 2 3 0 h script).
+Proof.
+  exists [[1%Z]; [2%Z]; [3%Z]], [[[1%Z]; [2%Z]]; [[4%Z]; [5%Z]]; [[6%Z]; [7%Z]]; [[8%Z]; [9%Z]]].
+  vm_compute. repeat split; try reflexivity; intros C; discriminate C. Qed.
